@@ -126,6 +126,11 @@ check("C28", "stateful model-based property test: edit histories applied in lock
       "One server per worker process, a fresh URI per history; \\n line ends only; the model clamps past-EOL columns to EOL as the LSP specification says.",
       "DESIGN.md §3 C28")
 
+check("C15", "round-trip property test (constants through the target interpreter's marshal) plus mutation fuzzing of the .pyc reader",
+      "Constants generated by type (naturals of every bit length, 32-bit integers, floats by bit pattern, ASCII / long / non-ASCII / astral strings, booleans, None, nested and very long tuples) are serialised with ValueObj::into_bytes for a generated target and unmarshalled by that interpreter: equal value and type. The .pyc of generated programs must be read back by CodeObj::from_pyc, and the same files truncated, with a byte replaced or a 4-byte field overwritten must yield Ok or Err without a panic, abort or hang.",
+      "Structured mutations of valid files (not a coverage-guided byte fuzzer); field-by-field equality of the re-read code object is not compared.",
+      "DESIGN.md §3 C15")
+
 NOT_APPLICABLE = {}
 
 def main():
